@@ -225,7 +225,11 @@ def ipFields : List IpField := [
   ⟨"nat_sessions", "value", "nat_ip", .host, .host⟩,
   ⟨"nat_sessions", "value", "orig_ip", .host, .wire⟩,
   ⟨"nat_sessions", "value", "dest_ip", .host, .wire⟩,
-  ⟨"eim_table", "value", "external_ip", .host, .host⟩]
+  ⟨"eim_table", "value", "external_ip", .host, .host⟩,
+  -- the VALUE of nat_reverse is the nat_sessions key of the flow (`bpf_map_update_elem(&nat_reverse, &rev_key, &key, …)`):
+  -- src_ip is the raw ip->saddr.  `purgeSubscriberState` (/repo ac77db8) decodes it as a uint32 and compares it with
+  -- `ipToKey(privateIP)` — as it does with nat_sessions key.src_ip and eim_table key.internal_ip above.
+  ⟨"nat_reverse", "value", "src_ip", .host, .wire⟩]
 
 /-- finding D10 = the leaves on which the two conventions differ.  The byte-level check attributes a
     `byteorder` verdict to D10 only for these tuples (and only when the bytes are exactly reversed). -/
@@ -282,7 +286,7 @@ def portFields : List PortField := [
 /-- every OTHER 4-byte / 2-byte integer data leaf of the shared records: plain host-order integers on both sides
     (ids, indices, counters, flags, lengths, the 12-bit VLAN ids).  `ip_pools.value.network` IS an address, written
     by Go in host order, but no program reads it.  Spec.C06.convention_tables_cover_all_u32_u16_leaves proves that
-    `ipFields ∪ portFields ∪ plainLeaves` is every such leaf, so a new one cannot go unclassified. -/
+    `ipFields ∪ portFields ∪ plainLeaves ∪ carriedLeaves` is every such leaf, so a new one cannot go unclassified. -/
 def plainLeaves : List (String × String × String) := [
   ("antispoof_config", "key", ""), ("antispoof_stats", "key", ""), ("stats_map", "key", ""), ("ip_pools", "key", ""),
   ("server_config", "key", ""), ("alg_ports", "key", ""), ("nat_config_map", "key", ""), ("nat_stats_map", "key", ""),
@@ -300,6 +304,64 @@ def plainLeaves : List (String × String × String) := [
   ("nat_config_map", "value", "default_ports_per_sub"),
   ("eim_table", "value", "ref_count"), ("eim_table", "value", "flags"),
   ("qos_egress", "value", "burst_bytes"), ("qos_ingress", "value", "burst_bytes")]
+
+/-- a 4-byte address or 2-byte port leaf of an entry that the Go code only CARRIES: it receives the entry from
+    `MapIterator.Next` and hands the key back to `Delete` byte for byte (`purgeSubscriberState`), never converting the
+    leaf from or to an address / a port number.  There is no Go-side convention to agree with; `c` records what the
+    program stores (confirmed per run against the natively compiled nat44_egress by op `x purge`). -/
+structure Carried where
+  map : String
+  side : String
+  leaf : String
+  /-- what the program stores: `wire` = raw header bytes, `host` = a raw copy of the host-order integer Go wrote elsewhere -/
+  c : Ord
+  /-- a 2-byte transport port (otherwise a 4-byte IPv4 address) -/
+  port : Bool
+deriving DecidableEq, Repr
+
+/-- nat_reverse: key `rev_key = {src_ip = ip->daddr, dst_ip = nat_ip, src_port = dst_port, dst_port = nat_port}`,
+    value = the nat_sessions key `{ip->saddr, ip->daddr, src_port, dst_port}` (value.src_ip is COMPARED by the purge and
+    therefore lives in `ipFields`).  `nat_ip` is a raw copy of `block.public_ip` / `eim->external_ip`, i.e. of the
+    host-order integer Go wrote; `nat_port = bpf_htons(port)`; the other ports are raw header fields.
+    Spec.C06.carried_leaves_only_iterated proves from the generated table that Go performs nothing but `Next` and
+    `Delete` on these maps, so a future Lookup/Put with a constructed key forces a real classification. -/
+def carriedLeaves : List Carried := [
+  ⟨"nat_reverse", "key", "src_ip", .wire, false⟩,
+  ⟨"nat_reverse", "key", "dst_ip", .host, false⟩,
+  ⟨"nat_reverse", "key", "src_port", .wire, true⟩,
+  ⟨"nat_reverse", "key", "dst_port", .wire, true⟩,
+  ⟨"nat_reverse", "value", "dst_ip", .wire, false⟩,
+  ⟨"nat_reverse", "value", "src_port", .wire, true⟩,
+  ⟨"nat_reverse", "value", "dst_port", .wire, true⟩]
+
+def carried? (m side leaf : String) : Option Carried :=
+  carriedLeaves.find? fun f => f.map == m && f.side == side && f.leaf == leaf
+
+/-- the 4 bytes the program stores in the carried address leaf `(m, side, leaf)` for a.b.c.d -/
+def carriedIpC (m side leaf : String) (a b c d : B) : List B :=
+  ordOf a b c d (match carried? m side leaf with | some f => f.c | none => .wire)
+
+/-- the 2 bytes the program stores in the carried port leaf `(m, side, leaf)` for port `p` -/
+def carriedPortC (m side leaf : String) (p : Nat) : List B :=
+  match carried? m side leaf with
+  | some ⟨_, _, _, .host, _⟩ => portFieldGo p
+  | _ => portFieldC p
+
+/-! ## DeallocateNAT → purgeSubscriberState (/repo ac77db8) -/
+
+/-- the leaves `purgeSubscriberState` compares with the subscriber's key: `k.SrcIP == privKey` on nat_sessions,
+    `v.SrcIP == privKey` on nat_reverse, `k.InternalIP == privKey` on eim_table -/
+def purgeLeaves : List (String × String × String) :=
+  [("nat_sessions", "key", "src_ip"), ("nat_reverse", "value", "src_ip"), ("eim_table", "key", "internal_ip")]
+
+/-- Go: the four `stored` bytes of such a leaf decoded as a (little-endian) `uint32`, compared with
+    `privKey = ipToKey(a.b.c.d) = binary.BigEndian.Uint32(ip)` -/
+def purgeSelects (a b c d : B) (stored : List B) : Bool := loadLE stored == beUint32 a b c d
+
+/-- C `is_private_ip(ip->saddr)` (bpf/nat44.c) on the wire bytes of the source address: only these are translated -/
+def isPrivateWire (a b : B) : Bool :=
+  a == 10 || (a == 172 && decide (16 ≤ b.toNat ∧ b.toNat ≤ 31)) || (a == 192 && b == 168) ||
+    (a == 100 && decide (64 ≤ b.toNat ∧ b.toNat ≤ 127))
 
 /-- finding KF-C06-port-order = the port leaves on which the two conventions differ -/
 def portOrderFields : List (String × String × String) :=
